@@ -333,28 +333,42 @@ func main() {
 					nblk++
 					do(fmt.Sprintf("mk %s h=%d valid=%s proposer=%d by=%d", name, height[i], vh.B01(!R.Chance(20)), b, i))
 					rd := atoi(strings.Fields(strings.Split(nodes[i].Digest(), " r=")[1])[0])
+					// what an honest node has accepted it relays (gossip): the messages also go to the pool
+					pop := fmt.Sprintf("proposal %s h=%d r=%d pol=-1 polblock=- signer=%d bad=0", name, height[i], rd, b)
+					pap := fmt.Sprintf("parts %s h=%d r=%d", name, height[i], rd)
+					sp, sa := map[int]bool{}, map[int]bool{}
 					for _, j := range honest {
 						if R.Chance(60) && height[j] == height[i] {
-							run(j, fmt.Sprintf("proposal %s h=%d r=%d pol=-1 polblock=- signer=%d bad=0", name, height[i], rd, b))
+							run(j, pop)
+							sp[j] = true
 							if R.Chance(80) {
-								run(j, fmt.Sprintf("parts %s h=%d r=%d", name, height[i], rd))
+								run(j, pap)
+								sa[j] = true
 							}
 							drain(j)
 						}
 					}
+					if len(sp) > 0 {
+						pool = append(pool, pend{pop, b, sp})
+					}
+					if len(sa) > 0 {
+						pool = append(pool, pend{pap, b, sa})
+					}
 				} else {
 					rd := R.Intn(3)
-					run(i, fmt.Sprintf("vote t=%d h=%d r=%d idx=%d addr=%s block=%s ok=1 peer=pb%d", R.Range(1, 2), height[i], rd, b, addr(b), blk, b))
+					vop := fmt.Sprintf("vote t=%d h=%d r=%d idx=%d addr=%s block=%s ok=1 peer=pb%d", R.Range(1, 2), height[i], rd, b, addr(b), blk, b)
+					run(i, vop)
 					drain(i)
+					pool = append(pool, pend{vop, b, map[int]bool{i: true}}) // node i relays what it accepted
 				}
 				r.Count("act.byzantine")
 			case c < 92: // crash + restart of an honest node (WAL replay); afterwards only the Go oracles judge that node
 				if withCrashes && nRestarts < 3 && R.Chance(10) {
 					nRestarts++
 					if !dead[i] {
-						do(fmt.Sprintf("go restart %d", i))
-						restarted[i] = true
-						timeouts[i] = append(timeouts[i], fmt.Sprintf("%d 0 NewHeight", height[i]))
+						// kill + WAL replay; the Lean model of the node replays its log too
+						timeouts[i] = nil
+						run(i, "restart torn=0")
 						drain(i)
 					}
 					r.Count("act.restart")
@@ -363,6 +377,64 @@ func main() {
 				drain(i)
 			}
 			r.Distinct(fmt.Sprintf("n=%d byz=%d h=%d", n, len(byz), height[i]))
+		}
+		// ---- C12: the fair suffix. The Byzantine validators fall silent; every message sent so far
+		// and from now on is delivered to every live honest node, every scheduled timeout fires.
+		// Every honest node must get past the highest height anybody was in when the suffix began.
+		if r.Mode == "live" {
+			target := int64(0)
+			for _, j := range honest {
+				if dead[j] {
+					fail("honest-node-panicked", fmt.Sprintf("honest node %d panicked although the Byzantine validators hold less than 1/3", j), "PANIC", "")
+				}
+				if height[j] > target {
+					target = height[j]
+				}
+			}
+			msgH := func(op string) int64 { return atoi(nodeimpl.Kvs(strings.Fields(op))["h"]) }
+			done := func() bool {
+				for _, j := range honest {
+					if !dead[j] && height[j] <= target {
+						return false
+					}
+				}
+				return true
+			}
+			sent := map[[2]int]bool{}
+			rounds := 0
+			for ; rounds < 120 && !done(); rounds++ {
+				for q := 0; q < len(pool); q++ { // the pool grows while we deliver
+					for _, j := range honest {
+						if dead[j] || pool[q].from == j || sent[[2]int{q, j}] || msgH(pool[q].op) != height[j] {
+							continue
+						}
+						sent[[2]int{q, j}] = true
+						run(j, pool[q].op)
+						drain(j)
+					}
+				}
+				if done() {
+					break
+				}
+				for _, j := range honest {
+					ts := timeouts[j]
+					timeouts[j] = nil
+					for _, t := range ts {
+						if atoi(strings.Fields(t)[0]) == height[j] {
+							run(j, "timeout "+t)
+							drain(j)
+						}
+					}
+				}
+			}
+			r.Count(fmt.Sprintf("live.rounds=%d", rounds/10*10))
+			for _, j := range honest {
+				if dead[j] {
+					fail("honest-node-panicked", fmt.Sprintf("honest node %d panicked during the fair suffix", j), "PANIC", "")
+				} else if height[j] <= target {
+					fail("height-does-not-terminate", fmt.Sprintf("with the honest validators (> 2/3) connected and every message and timeout delivered for %d rounds of delivery, honest node %d is still at height %d (target: past %d): %s", rounds, j, height[j], target, nodes[j].Digest()), fmt.Sprint(height[j]), fmt.Sprint(target+1))
+				}
+			}
 		}
 		maxh := int64(0)
 		for h := range commits {
